@@ -51,7 +51,11 @@ PRIMES = [2, 3, 5, 7, 11, 13, 17, 19, 23, 29, 31, 37, 41, 43, 47, 53, 59, 61, 67
 
 def rand_leaf(rng, i, env):
     v = PRIMES[i % len(PRIMES)]
-    k = rng.randrange(7)
+    k = rng.randrange(8)
+    if k == 7:
+        # a host function that evaluates another formula on the same parser each time it is called (a named formula)
+        env['funcs']['NAMED'] = {'mode': 'arg', 'v': {'t': 'blank'}, 'i': 1}
+        return F.call('NAMED', F.num(str(v)))
     if k == 6:
         # names that mean something to other notations (HTML entities, regex classes) - here they are plain cells and variables
         if rng.random() < 0.5:
@@ -90,12 +94,27 @@ def rand_tree(rng, nops, env, counter):
     return F.binop(op, rand_tree(rng, left, env, counter), rand_tree(rng, nops - 1 - left, env, counter))
 
 
+UWS = ['', '', ' ', '\u00a0', '\u3000', '\u2009', '\u202f', '\x85', '\t', '\n']
+
+
+def named_hook(hh, args):
+    saved, hh.hooks = hh.hooks, {}
+    try:
+        hh.parse('1+2*3')
+    finally:
+        hh.hooks = saved
+
+
 def observe(lib, cases):
     obs = []
     for c in cases:
         lv = leaves(c['ast'], [])
         h = F.Harnessed(lib, c['env'])
+        h.hooks = {'call:NAMED': named_hook}
         texts = [text_of(c[m], lv) for m in ('min', 'full', 'red')]
+        if len(obs) % 7 == 3:      # blanks of every kind between the tokens of each rendering
+            wr = random.Random(len(obs))
+            texts = [text_of(c[m], lv, lambda: wr.choice(UWS)) for m in ('min', 'full', 'red')]
         outs = [outcome(h.p.parse(t)) for t in texts]
         if len(obs) % 3 == 2:      # the same three texts once more on the same parser: what is judged is the second evaluation
             outs = [outcome(h.p.parse(t)) for t in texts]
@@ -246,6 +265,7 @@ def main(tier, replay=None):
     if replay:
         c = json.load(open(replay))['case']
         h = F.Harnessed(lib, c['env'])
+        h.hooks = {'call:NAMED': named_hook}
         obs = [{'id': 1, 'ast': c['ast'], 'env': c['env'], 'formulas': c['formulas'], 'in': c['formulas'][0],
                 'outs': [outcome(h.p.parse(t)) for t in c['formulas']]}]
         v = core.validate_obs(run, 'Trace_C04', obs, 'replay', consts)
@@ -307,6 +327,16 @@ def main(tier, replay=None):
             big.append({'kind': 'bigcmp', 'op': op, 'a': signed(a), 'b': signed(b), 'k': 0, 'truth': truth, 'formula': text,
                         'out': {'int': False, 'neg': False, 'ds': [48]}, 'out2': {'int': False, 'neg': False, 'ds': [48]},
                         'in': {'op': op, 'a': str(a), 'b': str(b), 'formula': text}})
+    # exactly representable operands that cancel down to a half: (n+0.5) - n, scaled by ten so that the value is a whole number
+    for _ in range(60 if quick else 2000):
+        n = rng.randint(2 ** 49, 2 ** 52 - 2)
+        for text in ('(%d.5-%d)*10' % (n, n), '((%d.5)-(%d))*10' % (n, n), '(%d-%d.5)*10' % (n + 1, n), '(%d.5+(0-%d))*10' % (n, n)):
+            o = run_big(lib, '-', n * 10 + 5, n * 10, False, False, 'lit')
+            from .c06 import big_out
+            o['out'] = o['out2'] = big_out(bp.parse(text))
+            o['formula'] = text
+            o['in'] = dict(o['in'], formula=text)
+            big.append(o)
     for n, o in enumerate(big, 1):
         o['id'] = n
     v = core.validate_obs(run, 'Trace_Big', big, 'big')
